@@ -15,7 +15,11 @@ Leaves == <<
    <<"MultiPoint", <<>>>>, <<"MultiPoint", <<P(1,2), P(NaN,PInf)>>>>,
    <<"MultiLineString", <<<<P(1,2), P(3,NaN)>>, <<>>, <<P(5,6)>>>>>>,
    <<"MultiPolygon", <<<<>>, <<Sq>>, <<<<P(0,0), P(NInf,0), P(0,1), P(0,0)>>>>>>>>,
-   <<"Circle", P(1,2), 5, 8>>, <<"Circle", P(NaN,2), -999, 3>>, <<"Circle", P(1,NZero), 0, 64>>, <<"Circle", P(3,3), PInf, 12>>
+   <<"Circle", P(1,2), 5, 8>>, <<"Circle", P(NaN,2), -999, 3>>, <<"Circle", P(1,NZero), 0, 64>>, <<"Circle", P(3,3), PInf, 12>>,
+   \* degenerate rectangles (a point, a horizontal and a vertical segment, zero of both signs): still Polygons
+   <<"Rect", P(1,2), P(1,2)>>, <<"Rect", P(1,2), P(3,2)>>, <<"Rect", P(1,2), P(1,4)>>, <<"Rect", P(NZero,0), P(0,NZero)>>,
+   <<"Point", P(0,0)>>, <<"LineString", <<P(1,2), P(1,2)>>>>, <<"Polygon", <<<<P(1,1), P(1,1), P(1,1), P(1,1)>>>>>>,
+   <<"MultiPoint", <<P(1,2)>>>>, <<"MultiLineString", <<>>>>, <<"MultiPolygon", <<>>>>
 >>
 NLv == Len(Leaves)
 Colls == <<
